@@ -267,7 +267,11 @@ def harness_case(j):
     if k == "len":
         return "textop", {"s": j["s"], "op": j.get("op", "长度"), "prop": True, "via": via}
     if k == "chars":
-        return "textop", {"s": j["s"], "op": "字符组", "prop": True, "via": via}
+        c = {"s": j["s"], "op": "字符组", "prop": True, "via": via}
+        if j.get("history"):
+            c["history"] = j["history"]
+            c["via"] = "api"
+        return "textop", c
     if k == "split":
         return "textop", {"s": j["s"], "op": "分隔", "args": [{"t": "str", "v": j["sep"]}], "via": via}
     if k == "match":
@@ -569,6 +573,10 @@ def gen_textops(rng, quick):
         via = "interp" if rng.random() < 0.3 else "api"
         jobs.append({"k": "len", "s": s, "via": via, "op": rng.choice(["长度", "字数"]), "tag": "len"})
         jobs.append({"k": "chars", "s": s, "via": via, "tag": "chars"})
+        # the characters of a text after the lists handed back by earlier reads of its 字符组 were changed in place
+        jobs.append({"k": "chars", "s": s, "via": "api", "tag": "chars-after-history",
+                     "history": [rng.choice(["swap", "set-first", "set-index", "pop-add", "shift-add", "reverse-assign"])
+                                 for _ in range(rng.randrange(1, 4))]})
         # all index pairs around the text for short texts, a sample otherwise
         rngidx = list(range(-n - 2, n + 3))
         pairs = [(a, b) for a in rngidx for b in rngidx]
